@@ -59,7 +59,9 @@ def worker(k, todo, res, lock):
 
 def main():
     args = sys.argv[1:]
-    j = 4
+    # one worktree at a time by default: the Makefile passes RTAMT_REPO to the translators, and the generated .v files, the extraction and
+    # the driver under /verif are shared (use -j N only for changes that touch no translated source; run `make all` afterwards)
+    j = 1
     if args[:1] == ['-j']:
         j = int(args[1])
         args = args[2:]
